@@ -47,6 +47,19 @@ class FnInfo:
             t = b["t"]
             if t["k"] == "Call" and t.get("dest") and len(t["dest"]) == 1:
                 self.defs.setdefault(t["dest"][0], []).append(("call", i, t))
+        # calls that receive `&mut local`: the callee may store an error of its own callees into it (an out-parameter)
+        self.out_param_calls = {}
+        refs = {}
+        for i, b in enumerate(self.blocks):
+            for st in b["s"]:
+                rv = st["rv"]
+                if len(st["l"]) == 1 and rv.get("k") == "Ref" and rv.get("mut") and rv.get("p") and len(rv["p"]) == 1:
+                    refs[st["l"][0]] = rv["p"][0]
+            t = b["t"]
+            if t["k"] == "Call":
+                for a in t.get("args", []):
+                    if isinstance(a, dict) and "p" in a and len(a["p"]) == 1 and a["p"][0] in refs:
+                        self.out_param_calls.setdefault(refs[a["p"][0]], []).append(("call", callee_of(t), i))
         self.uncovered = self._uncovered(set())
 
     def _uncovered(self, ok_consumers):
@@ -119,12 +132,15 @@ class FnInfo:
                     ops = [o for o in rv.get("ops", []) if isinstance(o, dict) and "p" in o]
                     if rv.get("adt", "").endswith("result::Result") and ops:
                         out += self.origins(ops[0]["p"][0], depth + 1, seen)
+                    elif rv.get("adt", "").endswith("option::Option") and not rv.get("ops"):
+                        pass      # `None`: holds no error; what a callee stores through &mut is found below
                     else:
                         out.append(("ctor", rv.get("adt", "?"), blk))
                 elif rv["k"] == "Ref" and rv.get("p"):
                     out += self.origins(rv["p"][0], depth + 1, seen)
                 else:
                     out.append(("opaque", rv["k"], blk))
+        out += self.out_param_calls.get(local, [])
         if not out and local <= self.mir["argc"]:
             out.append(("param", str(local), 0))
         return out
